@@ -426,7 +426,11 @@ async fn run_task(
         })
         .await;
 
+    #[cfg(rip_verif)]
+    rip_kernel::verif::point("ws.task.before_acquire");
     let _workspace_guard = workspace_lock.acquire().await;
+    #[cfg(rip_verif)]
+    rip_kernel::verif::point("ws.task.acquired");
     match execution_mode {
         ToolTaskExecutionMode::Pipes => {
             pipes::run_pipes_task(
@@ -459,6 +463,8 @@ async fn run_task(
             .await
         }
     }
+    #[cfg(rip_verif)]
+    rip_kernel::verif::point("ws.task.done");
 
     finalize_snapshot(&handle, &snapshot_dir).await;
 }
